@@ -107,6 +107,13 @@ theorem touches_gcLockDrop (T : Key → Prop) (hT : T .gcLock) : TouchesOnly T g
   simp only [gcLockDrop, perform, bind_def, op_bind, ret_bind, pure_def]
   exact .op (fun k hk => (affects_remove_lock k hk) ▸ hT) fun r => .ret _
 
+theorem touches_gcLockReleaseOnError (T : Key → Prop) (hT : T .gcLock) : TouchesOnly T gcLockReleaseOnError := by
+  simp only [gcLockReleaseOnError, perform, bind_def, op_bind, ret_bind, pure_def]
+  refine .op (fun k hk => (affects_remove_lock k hk) ▸ hT) fun r => ?_
+  split
+  · exact .ret _
+  · exact touches_gcLockDrop T hT
+
 theorem touches_delBands (D D' : List Nat) (Q : Str → Prop) (hsub : ∀ b ∈ D', b ∈ D) :
     ∀ n, TouchesOnly (DelTouch D Q) (deleteBody.delBands D' n) := by
   induction D' with
@@ -198,11 +205,11 @@ theorem touches_deleteBody (strict : Bool) (D : List Nat) (o : DeleteOpts) (held
 theorem touches_withLock_tail (T : Key → Prop) (hT : T .gcLock) (r : Outcome DeleteStats) :
     TouchesOnly T (match r with
       | .ok st => (.ret st : Prog DeleteStats)
-      | .err e => gcLockDrop.bind fun _ => .fail e
+      | .err e => gcLockReleaseOnError.bind fun _ => .fail e
       | .panic site => gcLockDrop.bind fun _ => .panic site) := by
   cases r with
   | ok st => exact .ret _
-  | err e => exact (touches_gcLockDrop T hT).bind fun _ => .fail _
+  | err e => exact (touches_gcLockReleaseOnError T hT).bind fun _ => .fail _
   | panic site => exact (touches_gcLockDrop T hT).bind fun _ => .panic _
 
 theorem touches_deleteBands (strict : Bool) (D : List Nat) (o : DeleteOpts) :
